@@ -160,6 +160,7 @@ def judge(layout, names, ex, info):
 def task(args):
     layout, names, bound, cap = args[:4]
     deliver = bool(args[4]) if len(args) > 4 else False
+    sub = args[5] if len(args) > 5 else None
     from ..procs import explore, ScheduleError
     vios = []
     outcomes = set()
@@ -176,7 +177,7 @@ def task(args):
         outcomes.add((tuple(info['truth']), tuple(map(tuple, info['conds']))))
         return ex, info
     try:
-        st = explore(run, bound, max_execs=cap)
+        st = explore(run, bound, max_execs=cap, prefixes=sub)
     except ScheduleError as exc:
         return {'error': repr(exc), 'names': names}
     finally:
@@ -185,6 +186,14 @@ def task(args):
     st['outcomes'] = len(outcomes)
     st['names'] = names
     return st
+
+
+def _split(layout, names, bound, deliver=False):
+    """A bound >= 2 pair is one task per group of first-level deviations
+    (the root schedule itself is covered by the pair's bound-1 task)."""
+    chunks = mt.split_root(
+        lambda: run_schedule(layout, names, [], deliver)[0], bound)
+    return [(layout, names, bound, None, deliver, ch) for ch in chunks]
 
 
 def tasks(tier):
@@ -197,7 +206,8 @@ def tasks(tier):
          for pr in pairs(ORDER)]
     T += [(layout, pr, 1, None, True) for layout in ('++', 'fs')
           for pr in DELIVER_PAIRS]
-    T += [(layout, pr, b, None) for layout in ('++', 'fs')
-          for pr in HOLDING_PAIRS for b in (1, 2)]
-    T += [('++', pr, 2, None) for pr in pairs(ORDER[:5])]
+    T += [(layout, pr, 1, None) for layout in ('++', 'fs')
+          for pr in HOLDING_PAIRS]
+    for pr in HOLDING_PAIRS + pairs(ORDER[:4]):
+        T += _split('++', pr, 2)
     return T
